@@ -84,6 +84,8 @@ structure LP where
   i : Nat := 0
   col : Nat := 0
   tabRem : Nat := 0
+  /-- some columns of the current tab character have been consumed -/
+  tabPartial : Bool := false
   state : Nat := 0
   panic : Option String := none
 deriving Inhabited
@@ -97,8 +99,8 @@ def setPanic (p : LP) (msg : String) : LP := if p.panic.isSome then p else { p w
 
 def updateTabRemaining (p : LP) : LP :=
   if p.line.getD p.i 0 == TAB && p.i < p.line.length then
-    { p with tabRem := columnWidth p.col [TAB] }
-  else { p with tabRem := 0 }
+    { p with tabRem := columnWidth p.col [TAB], tabPartial := false }
+  else { p with tabRem := 0, tabPartial := false }
 
 def markMatched (p : LP) : LP := if p.state == stateOpening then { p with state := stateOpenMatched } else p
 
@@ -142,7 +144,7 @@ def consumeIndent : Nat → LP → Nat → LP
     if p.i < p.line.length && c == SP then
       consumeIndent fuel ({ p with col := p.col + 1, i := p.i + 1 }).updateTabRemaining (n - 1)
     else if p.i < p.line.length && c == TAB then
-      if n < p.tabRem then { p with col := p.col + n, tabRem := p.tabRem - n }
+      if n < p.tabRem then { p with col := p.col + n, tabRem := p.tabRem - n, tabPartial := true }
       else consumeIndent fuel ({ p with col := p.col + p.tabRem, i := p.i + 1 }).updateTabRemaining (n - p.tabRem)
     else p.setPanic "ConsumeIndent: consumed past end of indent"
 
